@@ -114,7 +114,7 @@ def spec_apply(driver, norb, entries, terms, e0=0):
     return parse_vec(driver.ask(f"apply {norb} {fmt_vec(entries)} {fmt_op(terms)}"))
 
 
-def compare_wfn(out_wfn, expected, dets=None, tol=0.0):
+def compare_wfn(out_wfn, expected, dets=None, tol=1e-9):
     """compare the coefficients of out_wfn with expected (dict of exact values) on the
     wavefunction's own determinants (= projection onto its sectors).  Returns list of mismatches."""
     got = wfn_dict(out_wfn)
